@@ -3,7 +3,7 @@ PROP = "C02"
 
 
 def run(tier):
-    ck = simprops.run_prop(PROP, tier, n_quick=6000, n_thorough=80000, e2e=(600, 5000), e2e_features=dict(dyndep=True))
+    ck = simprops.run_prop(PROP, tier, n_quick=6000, n_thorough=80000, e2e=(600, 5000), e2e_features=dict(dyndep=True), late_targets=(600, 8000))
     return ck.finish()
 
 
